@@ -5,7 +5,8 @@ import Vflow.Model.Base
 Every Go operation that can panic (index `b[i]`, slice `b[i:j]`, `b[i:]`) is an explicit check
 (`at?`, `slice?`, `from?`) that yields `Res.panic` when out of range; the guards of the Go code
 (`len(p.data) < 14` …) are transcribed as they are.  The model describes the code after the
-`fix:` commits F7 (802.1Q tag needs 18 octets) and F8 (IPv4 `Flags`/`FragOff` from the right bits).
+`fix:` commits F7 (802.1Q tag needs 18 octets), F8 (IPv4 `Flags`/`FragOff` from the right bits)
+and F15 (`Vlan` is the 12-bit VLAN identifier).
 
 Core Lean only.
 -/
@@ -137,7 +138,7 @@ def decodeVlan (d : Bytes) : Res (L2 × Bytes) :=
     let d' := hd ++ ty ++ tl
     let l2 ← decodeIEEE802 d'
     let rest ← from? d' 14
-    pure ({ l2 with vlan := v0 * 256 + v1 }, rest)
+    pure ({ l2 with vlan := (v0 * 256 + v1) % 4096 }, rest)   -- VLAN id: low 12 bits of the tag (F15 repair)
 
 /-- `decodeEthernet`: the datalink fields and the octets after the Ethernet header -/
 def decodeEthernet (d : Bytes) : Res (L2 × Bytes) :=
